@@ -58,6 +58,10 @@ def gen_cases(chk):
         pad = r.random() < 0.15  # non-minimal encodings
         kw = dict(hash_type=ht, flags=flags, comp_type=comp_type, chunk_hash_type=cht, chunks=chunks, opt_elems=opt,
                   detached=r.random() < 0.25, body=b"", data_digest=r.randbytes(DIGEST_SIZE[ht]))
+        if r.random() < 0.2:
+            # unused bytes between the signature count and the declared end of the header (accepted by the format): every offset
+            # reported for the data section must still be measured from the declared end
+            kw["header_tail"] = r.randbytes(r.choice([1, 2, 9, 130]))
         if pad:
             kw["flags"] = Raw(ci_encode(flags, pad=r.randrange(1, 4)))
             kw["count"] = Raw(ci_encode(nch, pad=r.randrange(1, 8)))
